@@ -1,5 +1,5 @@
 import Litep2pVerif.Proofs.Mss.Negotiate
-import Litep2pVerif.Model.Mss.WebRtc
+import Litep2pVerif.Proofs.Mss.WebRtc
 import Litep2pVerif.Generated.Consts
 /-!
 # C03 — Protocol negotiation agrees on one protocol and is transparent afterwards
@@ -184,6 +184,30 @@ theorem into_inner_safe (v : Version) (ps ls : List Bytes) (junk : Option PErr)
 example : (Dialer.onRecv ⟨.v1, [], .awaitProtocol [47, 97] true, [.header]⟩ (.msg (.protocol [47, 97]))).st.state =
     .failed .panic := by decide
 
+/-- **Message-based variant, safety half (partial).** Full statement (not proved, see the report):
+for all valid, frame-sized `main :: fallbacks`, all `sup` and every grouping `split`,
+`wPair main fallbacks sup split` is `⟨succeeded p, accepted p⟩` for the first `p ∈ main :: fallbacks`
+with `p ∈ sup`, and `⟨failed, none⟩` when there is none. Proved here, for ALL payloads (well-formed or
+not), all groupings and all states: the listener only ever accepts a name it supports, and the
+dialer only ever reports success for the name it is currently proposing. -/
+theorem webrtc_agree_partial (sup : List Bytes) (payload : Bytes) (hr : Bool) (d : WDialer) :
+    (∀ p m, wListen sup payload hr = .ok (.accepted p m) → p ∈ sup) ∧
+    (∀ q, (wRegister d payload).2 = .ok (.succeeded q) → q = d.protocol) :=
+  ⟨fun p m h => wListen_accepted sup payload hr p m h,
+   fun q h => wRegisterLoop_succeeded _ d payload q h⟩
+
+/-- Non-vacuity, on the composed pair: `/a` with fallbacks `/b`, `/c` against a listener supporting
+`/c`, `/b` agrees on `/b` for every grouping of the first payload and of the first response; disjoint
+names fail on the dialer side and the listener never accepts. -/
+example :
+    (∀ split ∈ [0, 1, 2, 3], wPair [47, 97] [[47, 98], [47, 99]] [[47, 99], [47, 98]] split =
+      ⟨.succeeded [47, 98], some (.ok [47, 98])⟩) ∧
+    wPair [47, 97] [[47, 98]] [[47, 99]] 3 = ⟨.failed, none⟩ ∧
+    wListen [[47, 98]] [19, 47, 109, 117, 108, 116, 105, 115, 116, 114, 101, 97, 109, 47, 49, 46, 48, 46, 48, 10,
+      3, 47, 98, 10] false = .ok (.accepted [47, 98] [19, 47, 109, 117, 108, 116, 105, 115, 116, 114, 101, 97, 109,
+      47, 49, 46, 48, 46, 48, 10, 3, 47, 98, 10]) := by
+  decide
+
 /-- **A fallback name is reported as the main protocol.** If the negotiated name is a fallback
 name of `main`, the substream is reported for `main` with `fallback = Some(negotiated)`; a main name
 is reported as itself with `fallback = None`. -/
@@ -218,5 +242,7 @@ open Litep2pVerif.Props.C03 in
 #print axioms negotiate_agree
 open Litep2pVerif.Props.C03 in
 #print axioms into_inner_safe
+open Litep2pVerif.Props.C03 in
+#print axioms webrtc_agree_partial
 open Litep2pVerif.Props.C03 in
 #print axioms fallback_reported_as_main
